@@ -131,4 +131,84 @@ mod verif_replay_expr_dm {
             assert!(eval(a).is_ok(), "`{}` must evaluate: {:?}", a, eval(a));
         }
     }
+
+    /// reference grouping: binary operators with their documented priority class (smaller binds tighter), all of them
+    /// grouping left to right; returns the fully parenthesised text of `operands[0] ops[0] operands[1] ...`
+    fn reference_grouping(operands: &[&str], ops: &[(&str, u8)]) -> String {
+        // precedence climbing over the flat list
+        fn climb(operands: &[&str], ops: &[(&str, u8)], pos: &mut usize, max_prio: u8) -> String {
+            let mut left = operands[*pos].to_string();
+            while *pos < ops.len() && ops[*pos].1 <= max_prio {
+                let (sym, prio) = ops[*pos];
+                *pos += 1;
+                // right operand: everything that binds strictly tighter than this operator
+                let right = climb(operands, ops, pos, prio - 1);
+                left = format!("({} {} {})", left, sym, right);
+            }
+            left
+        }
+        let mut pos = 0usize;
+        climb(operands, ops, &mut pos, u8::MAX)
+    }
+
+    /// C10 (bounded-exhaustive): every sequence of one, two or three binary operators, over several operand tuples,
+    /// has the value of its fully parenthesised form under the documented precedence
+    /// (`* / : % &` before `+ - |` before `< <= > >=` before `== !=`), equal precedence grouping left to right
+    #[test]
+    fn verif_replay_precedence_exhaustive() {
+        let ops: [(&str, u8); 14] = [
+            ("*", 5), ("/", 5), (":", 5), ("%", 5), ("&", 5),
+            ("+", 6), ("-", 6), ("|", 6),
+            ("<", 9), ("<=", 9), (">", 9), (">=", 9),
+            ("==", 10), ("!=", 10),
+        ];
+        let tuples: [[&str; 4]; 5] = [
+            ["7", "4", "2", "3"],
+            ["1", "8", "5", "2"],
+            ["9", "2", "2", "1"],
+            ["true", "false", "true", "false"],
+            ["1.5", "2", "0.5", "4"],
+        ];
+        let mut checked = 0usize;
+        let mut distinguishing = 0usize;
+        for n in 1..=3usize {
+            let mut idx = vec![0usize; n];
+            loop {
+                let seq: Vec<(&str, u8)> = idx.iter().map(|i| ops[*i]).collect();
+                for t in tuples.iter() {
+                    let mut flat = t[0].to_string();
+                    for k in 0..n {
+                        flat.push_str(&format!(" {} {}", seq[k].0, t[k + 1]));
+                    }
+                    let grouped = reference_grouping(&t[..n + 1], &seq);
+                    let a = eval(&flat);
+                    let b = eval(&grouped);
+                    match (&a, &b) {
+                        (Ok(x), Ok(y)) => {
+                            assert_eq!(x, y, "`{}` evaluates to {} but its documented grouping `{}` to {}", flat, x, grouped, y);
+                            distinguishing += 1;
+                        }
+                        (Err(_), Err(_)) => {}
+                        _ => panic!("`{}` gives {:?} but its documented grouping `{}` gives {:?}", flat, a, grouped, b),
+                    }
+                    checked += 1;
+                }
+                // next operator sequence
+                let mut k = 0;
+                while k < n {
+                    idx[k] += 1;
+                    if idx[k] < ops.len() {
+                        break;
+                    }
+                    idx[k] = 0;
+                    k += 1;
+                }
+                if k == n {
+                    break;
+                }
+            }
+        }
+        assert_eq!(checked, (14 + 14 * 14 + 14 * 14 * 14) * 5);
+        assert!(distinguishing > 1000, "only {} expressions evaluated without error", distinguishing);
+    }
 }
